@@ -11,6 +11,11 @@ A. luna.gateware.usb.usb3.application.request.SuperSpeedSetupDecoder
    are random, equal to the previous setup packet in all but one bit, or all-ones / all-zeros.  Deliberate patterns: a
    short (4..7 byte) setup-flagged packet followed by a 4-byte non-setup packet, by zero-length packets, and by a valid
    8-byte SETUP; a bad 8-byte setup followed by a good one; 9..16-byte setup-flagged packets.
+   Verdicts in the very cycle of a payload word (about every 6th packet): `rx_bad` together with the last word of an 8-byte
+   setup packet, together with the first word of a setup-flagged packet (packet ends there), together with a word of short /
+   over-long setup-flagged and of non-setup packets - this is what the link-layer DataPacketReceiver does when a control
+   symbol lands inside a payload word, `packet_bad` is combinational - and `rx_good` together with the last word; each
+   followed by a good non-setup packet of any length and / or by the host's correct SETUP retry with different field values.
    Oracle (USB 3.2 8.12.2, USB 2.0 table 9-2; nothing from luna): `packet.received` pulses exactly once, 1..3 cycles
    after the verdict, iff the packet had the setup flag, exactly 8 payload bytes and verdict good; in that cycle
    recipient/type/direction = bits 4:0 / 6:5 / 7 of byte 0, request = byte 1, value / index / length = little-endian
@@ -30,13 +35,19 @@ B. luna.gateware.usb.usb3.application.descriptor.GetDescriptorHandler(collection
 Deviations from DESIGN section 7: none in substance; the "non-setup packet between a short setup packet and the next one"
 pattern is generated on purpose and both of its consequences (false report, missed SETUP) have their own mechanism names.
 
-Findings on the unchanged tree (findings/C48.md): a setup-flagged packet of 4..7 bytes that is reported good leaves the
+Findings (findings/C48.md).  Open: a setup-flagged packet that is aborted by `rx_bad` in the cycle of its first word is not
+abandoned (WAIT_FOR_FIRST takes the word without looking at rx_bad): the next good 4-byte packet completes a bogus SETUP
+(`first_word_aborted_in_same_cycle_completed_by_later_packet`), the host's SETUP retry is lost
+(`setup_missed_after_first_word_aborted_in_same_cycle`).  Fixed in d31e798: a setup-flagged packet of 4..7 bytes that is reported good leaves the
 decoder waiting for a second word; the next 4-byte packet completes a bogus SETUP (`short_setup_packet_completed_by_later_
 packet`) or the next correct SETUP is lost (`setup_missed_after_short_setup_packet`).  The classifier is narrow: the false
 report must consist of exactly the first word of the short packet plus the 4-byte packet, the miss must directly follow a
 good short setup packet (only sub-word packets in between).  With the proposed one-line fix the check holds.
 
-Mutations (93 repository tests pass for each), all caught by the quick tier: second word accepted without `last`,
+Mutations (93 repository tests pass for each), all caught by the quick tier: the verdict-abandon of PARSE_SECOND made an
+Elif of the "second word" branch, and the same abandon only when no word is present (both park a setup packet whose last
+word carries rx_bad and report it on the next good verdict: `bad_setup_packet_reported_on_later_verdict`; this class had
+escaped while coincident verdicts were not generated); second word accepted without `last`,
 tx_length = requested length (DESIGN section 10); `first` not required, rx_bad ignored in WAIT_FOR_VALID, rx_bad ignored in
 PARSE_SECOND, setup flag ignored, partial second word accepted, first word accepted when partial; unknown descriptor not
 stalled, wLength truncated to 8 bits, buffer stage never loaded while tx.ready is low, generator advanced although the
@@ -44,8 +55,11 @@ buffered word was not taken, descriptor selected by index alone.
 
 Not judged: `first` on the descriptor stream, the contents of the invalid byte lanes, `tx_length` after the first valid
 cycle, a `start` while a descriptor is still being streamed, value/length changes during a stream (the setup packet is
-constant during a request), the decoder's `packet` fields outside the `received` cycle, verdicts that arrive in the same
-cycle as the final word (the CRC follows the payload on the wire), words with non-contiguous byte masks.
+constant during a request), the decoder's `packet` fields outside the `received` cycle, words with non-contiguous byte
+masks; whether an 8-byte SETUP whose `rx_good` comes in the very cycle of its last word is reported (the real receiver checks
+the CRC after the payload, so this cannot happen; it is generated, counted as unjudged, its fields are judged if it is
+reported, and everything after it is judged); `rx_good` in the cycle of the only word of a 4-byte setup-flagged packet is
+not generated for the same reason (on the current decoder it would only re-create the fixed short-packet defect).
 """
 from rv.sim import Bench
 
@@ -59,12 +73,15 @@ RULE = ("case = decoder session (50-110 data packets: setup flag x 0..16 bytes x
 REQUIRED_BINS = ["setup8_good", "setup8_bad", "setup8_aborted", "setup_short_good", "setup_long_good", "setup_zero_length", "nonsetup8_good",
                  "nonsetup4_after_short_setup", "valid_setup_after_short_setup", "good_setup_after_bad_setup", "word_gap_inside_setup",
                  "verdict_delay_1", "verdict_delay_ge_4", "one_bit_variation", "setup16_good",
+                 "rx_bad_with_last_word_setup8", "rx_good_with_last_word_setup8", "rx_bad_with_first_word_setup", "coincident_verdict_other_size_setup",
+                 "good_packet_after_coincident_bad_setup8", "setup_retry_after_coincident_bad_setup8",
                  "desc_known", "desc_unknown", "desc_unknown_one_bit_off", "desc_unknown_alias", "wlength_0", "wlength_lt_len", "wlength_eq_len", "wlength_gt_len",
                  "wlength_len_plus_256", "wlength_cuts_mid_word", "desc_len_not_multiple_of_4", "tx_stalled", "tx_stall_on_last_word",
                  "collection_real", "collection_list", "single_descriptor_collection"]
 REQUIRED_EVENTS = ["packets_sent", "received_strobes", "fields_compared", "descriptor_requests", "descriptor_bytes_compared",
                    "stalls_seen", "tx_length_compared", "decoder_cycles", "handler_cycles"]
-ASSUMPTIONS = ["rx_good / rx_bad arrive at least one cycle after the final payload word and before the next packet's first word",
+ASSUMPTIONS = ["rx_bad may accompany any payload word (then the packet ends there) or follow the final word; rx_good follows the final word "
+               "(rx_good with the final word is generated but whether that SETUP is reported is unjudged); verdict before the next packet's first word",
                "header_in is stable from the first word of a packet until the next packet's header",
                "received must pulse 1..3 cycles after rx_good; fields are judged in that cycle",
                "descriptor stream must start within 8 cycles of start; stall within 0..2 cycles",
@@ -102,9 +119,18 @@ def make_packets(rng, res):
         p = {"setup": setup, "n": nbytes, "data": data, "verdict": verdict, "gaps": rng.choice(["none", "none", "random", "long"]),
              "delay": rng.choice([1, 1, 2, 3, 4, 6]), "idle": rng.choice([1, 1, 2, 5, 12]), "hdr_lead": rng.choice([0, 0, 1, 3])}
         p.update(kw)
+        nwords = (nbytes + 3) // 4
+        # coin: the verdict strobe comes in the very cycle of a payload word (rx_bad: the link receiver bails out on a control
+        # symbol inside that word - any word, also the first or the last one; rx_good: with the last word, not produced by
+        # the real receiver, generated all the same)
+        p.setdefault("coin", nwords > 0 and rng.random() < 0.12)
+        if not nwords:
+            p["coin"] = False
         if verdict == "abort":
-            nwords = (nbytes + 3) // 4
-            p["abort_after"] = rng.randint(0, max(0, nwords - 1)) if nwords else 0
+            # not coincident: words [0, abort_after) are sent, rx_bad later; coincident: word abort_after is sent and carries rx_bad
+            p["abort_after"] = kw.get("abort_after", rng.randint(0, max(0, nwords - 1)) if nwords else 0)
+        if p["coin"] and verdict == "good" and setup and nbytes == 4:
+            p["coin"] = False       # rx_good together with the *first* word of a setup-flagged packet: not generated (see docstring)
         if setup and nbytes == 8:
             last_setup = data
         pkts.append(p)
@@ -112,7 +138,23 @@ def make_packets(rng, res):
 
     while len(pkts) < n:
         k = rng.random()
-        if k < 0.30:
+        if k < 0.12:
+            # verdict in the cycle of a payload word, then packets that must not bring the dead packet back
+            j = rng.random()
+            if j < 0.40:
+                add(True, 8, "bad", coin=True)                              # rx_bad with the last word
+            elif j < 0.60:
+                add(True, rng.choice([4, 8, 8, 8, 12]), "abort", coin=True, abort_after=0)     # rx_bad with the first word
+            elif j < 0.72:
+                add(True, 8, "good", coin=True)                             # rx_good with the last word
+            else:
+                add(True, rng.choice([5, 6, 7, 9, 12, 16]), rng.choice(["good", "bad", "abort"]), coin=True)
+            j = rng.random()
+            if j < 0.45:
+                add(False, rng.choice([4, 4, 8, 0, 1, 12, rng.randint(0, 16)]), "good", coin=rng.random() < 0.15, idle=rng.choice([1, 1, 3]))
+            if j > 0.25:
+                add(True, 8, "good", coin=False, idle=rng.choice([1, 1, 2, 6]))       # the host's retry, different field values
+        elif k < 0.30:
             add(True, 8, "good")
         elif k < 0.38:
             add(True, 8, rng.choice(["bad", "bad", "abort"]))
@@ -152,7 +194,7 @@ def decoder_session(rng, res):
     outs = [out.received, out.recipient, out.type, out.is_in_request, out.request, out.value, out.index, out.length]
     b.watch(*outs)
     strobes = []        # (cycle, fields dict)
-    res.sig([(p["setup"], p["n"], p["data"], p["verdict"], p["gaps"], p["delay"], p["idle"]) for p in pkts])
+    res.sig([(p["setup"], p["n"], p["data"], p["verdict"], p["gaps"], p["delay"], p["idle"], p["coin"], p.get("abort_after")) for p in pkts])
 
     def monitor(b):
         res.event("decoder_cycles")
@@ -180,8 +222,14 @@ def decoder_session(rng, res):
                 yield
             data = p["data"]
             words = [data[i:i + 4] for i in range(0, len(data), 4)]
-            nsend = len(words) if p["verdict"] != "abort" else p["abort_after"]
+            coin = p["coin"]
+            nsend = len(words) if p["verdict"] != "abort" else p["abort_after"] + (1 if coin else 0)
             long_gap_at = rng.randrange(len(words)) if words and p["gaps"] == "long" else None
+            good = p["verdict"] == "good"
+            if coin:
+                # keep verdicts far enough apart that every `received` pulse can be attributed
+                while b.cycle + nsend < prev_verdict_cycle + RECEIVED_WINDOW + 2:
+                    yield
             for i, w in enumerate(words[:nsend]):
                 if i and (p["gaps"] == "random" and rng.random() < 0.4 or long_gap_at == i):
                     b.set(sink.valid, 0)
@@ -193,16 +241,23 @@ def decoder_session(rng, res):
                 word = int.from_bytes(w + bytes(rng.randrange(256) for _ in range(4 - len(w))), "little")
                 b.set(sink.valid, MASKS[len(w)]); b.set(sink.payload, word)
                 b.set(sink.first, int(i == 0)); b.set(sink.last, int(i == len(words) - 1))
+                if coin and i == nsend - 1:
+                    b.set(dut.rx_good, int(good)); b.set(dut.rx_bad, int(not good))
+                    p["t_verdict"] = b.cycle + 1
+                    prev_verdict_cycle = b.cycle + 1
                 yield
             b.set(sink.valid, 0); b.set(sink.first, 0); b.set(sink.last, 0)
             garbage()
+            if coin:
+                b.set(dut.rx_good, 0); b.set(dut.rx_bad, 0)
+                res.event("packets_sent")
+                continue
             delay = p["delay"]
             # keep verdicts far enough apart that every `received` pulse can be attributed
             while b.cycle + delay < prev_verdict_cycle + RECEIVED_WINDOW + 2:
                 delay += 1
             for _ in range(delay - 1):
                 yield
-            good = p["verdict"] == "good"
             b.set(dut.rx_good, int(good)); b.set(dut.rx_bad, int(not good))
             p["t_verdict"] = b.cycle + 1
             prev_verdict_cycle = b.cycle + 1
@@ -222,18 +277,26 @@ def decoder_session(rng, res):
         return {"recipient": d[0] & 0x1F, "type": (d[0] >> 5) & 3, "is_in_request": d[0] >> 7, "request": d[1],
                 "value": d[2] | d[3] << 8, "index": d[4] | d[5] << 8, "length": d[6] | d[7] << 8}
 
+    def bad_with_first(q):
+        """rx_bad in the very cycle of the packet's first word"""
+        return q["coin"] and ((q["verdict"] == "abort" and q["abort_after"] == 0) or (q["verdict"] == "bad" and q["n"] <= 4))
+
     def stuck_source(k):
-        """a setup-flagged packet of 4..7 bytes with verdict good before packet k, with only sub-word packets reported good in between"""
+        """(index, kind) of a packet before packet k that is known to leave a first word behind in the unchanged decoder:
+        kind "short": setup-flagged, 4..7 bytes, verdict good, only sub-word packets reported good in between (fixed in d31e798);
+        kind "abort0": setup-flagged, >= 4 bytes, aborted by rx_bad in the very cycle of its first word, directly before k."""
+        if k and pkts[k - 1]["setup"] and pkts[k - 1]["n"] >= 4 and bad_with_first(pkts[k - 1]):
+            return k - 1, "abort0"
         j = k - 1
         while j >= 0:
             q = pkts[j]
-            if q["verdict"] == "good" and q["n"] < 4:
+            if q["verdict"] == "good" and q["n"] < 4 and not q["coin"]:
                 j -= 1
                 continue
-            if q["setup"] and 4 <= q["n"] <= 7 and q["verdict"] == "good":
-                return j
-            return None
-        return None
+            if q["setup"] and 4 <= q["n"] <= 7 and q["verdict"] == "good" and not q["coin"]:
+                return j, "short"
+            return None, None
+        return None, None
 
     si = 0
     for k, p in enumerate(pkts):
@@ -249,6 +312,23 @@ def decoder_session(rng, res):
             mine.append(strobes[si])
             si += 1
         expect = p["setup"] and p["n"] == 8 and p["verdict"] == "good"
+        coin = p["coin"]
+        # rx_good in the cycle of the last word does not occur behind the real receiver (the CRC follows the payload): whether
+        # such a SETUP is reported is not judged; its fields, and everything that follows, are
+        may = expect and coin
+        if may:
+            expect = False
+            res.unjudged += 1
+        nw = (p["n"] + 3) // 4
+        bad_with_last = coin and (p["verdict"] == "bad" or (p["verdict"] == "abort" and p["abort_after"] == nw - 1))
+        if coin:
+            if p["setup"] and p["n"] == 8:
+                res.bin("rx_bad_with_last_word_setup8" if bad_with_last else "rx_good_with_last_word_setup8" if p["verdict"] == "good"
+                        else "rx_bad_with_first_word_setup")       # (8 bytes, two words: a coincident abort that is not on the last word is on the first)
+            elif p["setup"] and p["n"] >= 4:
+                res.bin("rx_bad_with_first_word_setup" if bad_with_first(p) else "coincident_verdict_other_size_setup")
+        if k and pkts[k - 1]["coin"] and pkts[k - 1]["setup"] and pkts[k - 1]["n"] == 8 and pkts[k - 1]["verdict"] != "good" and p["verdict"] == "good":
+            res.bin("setup_retry_after_coincident_bad_setup8" if (p["setup"] and p["n"] == 8) else "good_packet_after_coincident_bad_setup8")
         # bins
         if p["setup"] and p["n"] == 8:
             res.bin({"good": "setup8_good", "bad": "setup8_bad", "abort": "setup8_aborted"}[p["verdict"]])
@@ -264,17 +344,21 @@ def decoder_session(rng, res):
             res.bin("verdict_delay_1")
         elif p["delay"] >= 4:
             res.bin("verdict_delay_ge_4")
-        src = stuck_source(k)
-        if src is not None and not p["setup"] and p["n"] == 4 and p["verdict"] == "good":
+        src, src_kind = stuck_source(k)
+        if src_kind == "short" and not p["setup"] and p["n"] == 4 and p["verdict"] == "good":
             res.bin("nonsetup4_after_short_setup")
-        if src is not None and expect:
+        if src_kind == "short" and expect:
             res.bin("valid_setup_after_short_setup")
-        desc = "packet %d (setup=%d, %d bytes %s, %s, verdict cycle %d)" % (k, p["setup"], p["n"], p["data"].hex(), p["verdict"], tv)
-        if expect:
+        desc = "packet %d (setup=%d, %d bytes %s, %s%s, verdict cycle %d)" % (
+            k, p["setup"], p["n"], p["data"].hex(), p["verdict"], " in the cycle of word %d" % ((p["abort_after"] if p["verdict"] == "abort" else nw - 1)) if coin else "", tv)
+        if expect or (may and mine):
             if not mine:
-                if src is not None:
+                if src_kind == "short":
                     res.violation("setup_missed_after_short_setup_packet", "decoder: %s not reported; packet %d was a setup-flagged packet of %d bytes "
                                   "reported good" % (desc, src, pkts[src]["n"]))
+                elif src_kind == "abort0":
+                    res.violation("setup_missed_after_first_word_aborted_in_same_cycle", "decoder: %s not reported; packet %d was a setup-flagged packet "
+                                  "aborted by rx_bad in the cycle of its first word" % (desc, src))
                 else:
                     res.violation("setup_not_reported", "decoder: %s not reported" % desc)
             else:
@@ -290,10 +374,18 @@ def decoder_session(rng, res):
             for c, got in mine:
                 mech = "received_for_setup_packet_of_wrong_size" if p["setup"] and p["verdict"] == "good" else \
                        "received_for_bad_packet" if p["verdict"] != "good" else "received_for_non_setup_packet"
-                if src is not None and p["n"] == 4 and p["verdict"] == "good":
+                if src is not None and p["n"] == 4 and p["verdict"] == "good" and not coin:
                     merged = fields_of(pkts[src]["data"][:4] + p["data"])
                     if merged == got:
-                        mech = "short_setup_packet_completed_by_later_packet"
+                        mech = "short_setup_packet_completed_by_later_packet" if src_kind == "short" else \
+                               "first_word_aborted_in_same_cycle_completed_by_later_packet"
+                else:
+                    # the fields of an earlier setup packet that was reported bad?
+                    for q in reversed(pkts[max(0, k - 4):k]):
+                        if q["setup"] and q["n"] == 8 and q["verdict"] != "good" and (q["verdict"] == "bad" or (q["coin"] and q["abort_after"] == 1)) \
+                                and fields_of(q["data"]) == got:
+                            mech = "bad_setup_packet_reported_on_later_verdict"
+                            break
                 res.violation(mech, "decoder: received pulsed at cycle %d for %s; fields %s" % (c, desc, got))
     while si < len(strobes):
         res.violation("received_without_packet_verdict", "decoder: received pulsed at cycle %d after the last packet" % strobes[si][0])
